@@ -25,6 +25,7 @@ type FlowCfg struct {
 	VisitLines bool // every node starts with a line printing all visit counts
 	Fuel       int  // upper bound of backward jumps
 	NoSets     bool
+	Markup     bool // some line texts carry markup
 	Random     bool // use the random built-ins (programs are then only compared with themselves)
 	BadJumps   int // percent of jumps that name a node that does not exist (a fault)
 }
@@ -187,6 +188,9 @@ func (g *flowGen) parts(prefix string) []hast.Part {
 	}
 	if r.Chance(1, 5) {
 		parts = append(parts, hast.Lit(r.Pick(" end", " fin", " 終")))
+	}
+	if g.cfg.Markup && r.Chance(1, 2) {
+		parts = append(parts, hast.Lit(r.Pick(" [b]bold[/b]", " [wave a=1 /]x", " [a][c]y[/a]z[/c]", " [plural value=2 one=\"% cat\" other=\"% cats\" /]", " [nomarkup][raw][/nomarkup]")))
 	}
 	return parts
 }
